@@ -19,7 +19,10 @@
      statements   expr(e) assign(tg,e) aug(op,tg,e) if(c,then,else) for(tg,it,body) break continue
                   pass return(e) def(name,params,body)
      targets      var(n) tuple(items) index(e,i)
-     params       [n, kind \in {"normal","args","kwonly","kwargs"}, d (default expr or absent)]
+     params       [n, kind \in {"normal","args","kwonly","kwargs"}, d (default expr or absent)] and optionally ty (a type);
+                  def optionally has ret (a type).  Types (run-time checked annotations of the typing dialect):
+                  tname(n \in int str bool None list dict tuple any callable iterable)  tlist(a)  tdict(a,b)
+                  ttupleof(a) (= tuple[a, ...])  tunion(items)
 
    Error kinds are abstract: div0 index key type unbound arity immutable iter_mutation fail depth
    not_hashable value attr format; "spec_domain" marks a program that left the domain in which this
@@ -400,6 +403,32 @@ GetAttr(v, name, ncp, m, line) ==
     ELSE IF HasMethod(v, name, m.heap) THEN R(m, BmV(name, v))
     ELSE R(Raise(m, "attr", line), NoneV)
 
+(* ------------------------------------------------------------------ type annotations
+   does value v belong to type ty ?  (bool is not int; a string is not iterable) *)
+RECURSIVE Matches(_, _, _)
+Matches(ty, v, h) ==
+    IF ty.k = "tname" THEN
+        (IF ty.n = "any" THEN TRUE
+         ELSE IF ty.n = "int" THEN v.t = "int"
+         ELSE IF ty.n = "str" THEN v.t = "str"
+         ELSE IF ty.n = "bool" THEN v.t = "bool"
+         ELSE IF ty.n = "None" THEN v.t = "none"
+         ELSE IF ty.n = "list" THEN IsList(v, h)
+         ELSE IF ty.n = "dict" THEN IsDict(v, h)
+         ELSE IF ty.n = "tuple" THEN v.t = "tuple"
+         ELSE IF ty.n = "callable" THEN (v.t \in {"bi", "bm"} \/ IsFn(v, h))
+         ELSE IF ty.n = "iterable" THEN (v.t \in {"tuple", "range"} \/ IsList(v, h) \/ IsDict(v, h) \/ IsSet(v, h))
+         ELSE FALSE)
+    ELSE IF ty.k = "tlist" THEN IsList(v, h) /\ \A i \in 1..Len(h[v.a].items) : Matches(ty.a, h[v.a].items[i], h)
+    ELSE IF ty.k = "tdict" THEN IsDict(v, h) /\ \A i \in 1..Len(h[v.a].keys) :
+                                    Matches(ty.a, h[v.a].keys[i], h) /\ Matches(ty.b, h[v.a].vals[i], h)
+    ELSE IF ty.k = "ttupleof" THEN v.t = "tuple" /\ \A i \in 1..Len(v.v) : Matches(ty.a, v.v[i], h)
+    ELSE IF ty.k = "tunion" THEN \E i \in 1..Len(ty.items) : Matches(ty.items[i], v, h)
+    ELSE FALSE
+HasTy(p) == "ty" \in DOMAIN p /\ p.ty.k # "absent"
+(* the parameters (in declaration order) whose bound value does not belong to the annotation *)
+BadParams(params, vals, h) == {j \in 1..Len(params) : HasTy(params[j]) /\ params[j].kind \in {"normal", "kwonly"} /\ ~Matches(params[j].ty, vals[j], h)}
+
 (* ------------------------------------------------------------------ the interpreter *)
 RECURSIVE E(_, _, _), EvalSeq(_, _, _, _, _), X(_, _, _), ExecB(_, _, _, _), CallV(_, _, _, _, _, _),
           CallFn(_, _, _, _, _), Loop(_, _, _, _, _, _, _), Assign(_, _, _, _, _),
@@ -604,6 +633,8 @@ CallFn(fa, pos, named, m, line) ==
         b == Bind(fn.params, fn.defaults, pos, named1, m) IN
     IF ~b.ok THEN R(Raise(m, "arity", line), NoneV)
     ELSE IF m.depth + 1 >= m.cap THEN R(Raise(m, "depth", line), NoneV)
+    \* annotated parameters are checked after binding, before the body; reported at the call
+    ELSE IF BadParams(fn.params, b.vals, b.m.heap) # {} THEN R(Raise(b.m, "type", line), NoneV)
     ELSE LET pn == ParamNames(fn.params)
              extra == IF fn.lam THEN <<>>
                       ELSE SetToSeq(AssignedS(fn.body, 1) \ {pn[i] : i \in 1..Len(pn)})
@@ -615,13 +646,17 @@ CallFn(fa, pos, named, m, line) ==
             (LET r == E(fn.body, env1, m1) IN
              IF Ok(r.m) THEN R(Ev([r.m EXCEPT !.depth = @ - 1], [e |-> "ret", a |-> m.depth + 1, why |-> ""]), r.v)
              ELSE R(r.m, NoneV))
-         ELSE LET r == ExecB(fn.body, 1, env1, m1) IN
-              IF Ok(r.m) THEN R(Ev([r.m EXCEPT !.depth = @ - 1], [e |-> "ret", a |-> m.depth + 1, why |-> ""]),
-                                IF r.f = "return" THEN r.v ELSE NoneV)
-              ELSE R(r.m, NoneV)
+         ELSE LET r == ExecB(fn.body, 1, env1, m1)
+                  rv == IF r.f = "return" THEN r.v ELSE NoneV IN
+              IF ~Ok(r.m) THEN R(r.m, NoneV)
+              \* the declared return type is checked by the return statement (failure reported there);
+              \* falling off the end of an annotated function: where the failure is reported is not specified
+              ELSE IF "ret" \in DOMAIN fn /\ fn.ret.k # "absent" /\ ~Matches(fn.ret, rv, r.m.heap) THEN
+                  (IF r.f = "return" THEN R(Raise(r.m, "type", r.rl), NoneV) ELSE R(Raise(r.m, "spec_domain", line), NoneV))
+              ELSE R(Ev([r.m EXCEPT !.depth = @ - 1], [e |-> "ret", a |-> m.depth + 1, why |-> ""]), rv)
 
 (* ---- statements: result [m, f, v] with f \in {"next","break","continue","return"} ---- *)
-Flow(m, f, v) == [m |-> m, f |-> f, v |-> v]
+Flow(m, f, v) == [m |-> m, f |-> f, v |-> v, rl |-> 0]       \* rl: line of the return statement
 
 ExecB(stmts, i, env, m) ==
     IF ~Ok(m) \/ i > Len(stmts) THEN Flow(m, "next", NoneV)
@@ -634,7 +669,7 @@ Loop(tg, la, items, j, body, env, m) ==
              r == ExecB(body, 1, env, a1) IN
          IF ~Ok(r.m) THEN Flow(Unlock(r.m, la, "error"), "next", NoneV)       \* the property's rule
          ELSE IF r.f = "break" THEN Flow(Unlock(r.m, la, "break"), "next", NoneV)
-         ELSE IF r.f = "return" THEN Flow(Unlock(r.m, la, "return"), "return", r.v)
+         ELSE IF r.f = "return" THEN [Flow(Unlock(r.m, la, "return"), "return", r.v) EXCEPT !.rl = r.rl]
          ELSE LET t == Tick(r.m, tg.line) IN
               IF ~Ok(t) THEN Flow(Unlock(t, la, "error"), "next", NoneV)
               ELSE Loop(tg, la, items, j + 1, body, env, Ev(t, [e |-> "backedge", a |-> 0, why |-> ""]))
@@ -700,15 +735,19 @@ X(s, env, m0) ==
     ELSE IF s.k = "continue" THEN Flow(m, "continue", NoneV)
     ELSE IF s.k = "pass" THEN Flow(m, "next", NoneV)
     ELSE IF s.k = "return" THEN
-        (IF Absent(s.e) THEN Flow(m, "return", NoneV)
-         ELSE LET x == E(s.e, env, m) IN Flow(x.m, "return", x.v))
+        (IF Absent(s.e) THEN [Flow(m, "return", NoneV) EXCEPT !.rl = s.line]
+         ELSE LET x == E(s.e, env, m) IN [Flow(x.m, "return", x.v) EXCEPT !.rl = s.line])
     ELSE IF s.k = "def" THEN
         (LET ds == EvalSeq([i \in 1..Len(s.params) |-> IF Absent(s.params[i].d) THEN [k |-> "none", line |-> s.line] ELSE s.params[i].d],
                            1, env, m, <<>>) IN
          IF ~Ok(ds.m) THEN Flow(ds.m, "next", NoneV)
+         \* a default value must belong to its parameter's annotation: checked when the def is executed
+         ELSE IF \E i \in 1..Len(s.params) : HasTy(s.params[i]) /\ ~Absent(s.params[i].d) /\ ~Matches(s.params[i].ty, ds.vs[i], ds.m.heap)
+              THEN Flow(Raise(ds.m, "type", s.line), "next", NoneV)
          ELSE LET x == Alloc(ds.m, [kind |-> "fn", name |-> s.name, params |-> s.params,
                                     defaults |-> [i \in 1..Len(s.params) |-> IF Absent(s.params[i].d) THEN UnboundV ELSE ds.vs[i]],
-                                    body |-> s.body, env |-> env, lam |-> FALSE])
+                                    body |-> s.body, env |-> env, lam |-> FALSE,
+                                    ret |-> IF "ret" \in DOMAIN s THEN s.ret ELSE [k |-> "absent"]])
               IN Flow(SetVar(s.name, RefV(x.a), env, x.m, s.line), "next", NoneV))
     ELSE Flow(Raise(m, "spec_domain", s.line), "next", NoneV)
 
